@@ -155,9 +155,29 @@ def run(ctx):
            with_field(4, ",".join("n256" if i == AG.INGRESS else t for i, t in enumerate(f[4].split(","))))]
     for b in bad:
         cases.append(Case(["agg new %d %d" % (A, I), b, "agg dump", ok, AG.msg_op([ok, b]), "agg dump"], "out-of-range", False, False))
+    # judge-only (outside the model: it has no record without tcpState): the two nodes of a flow - or two exports of one
+    # node - use templates that differ in a configured NON-STATS element. Whatever the aggregation answers (it may refuse
+    # the record), it must not crash, and what it holds afterwards must still be dumpable.
+    crash_only = []
+    for key, ft in ((1, 1), (2, 2), (3, 3)):
+        for first_has, second_has in ((False, True), (True, False), (False, False)):
+            mk = lambda has, e: with_field(8, "45535441424c4953484544" if has else "~").replace(" 1 1 ", " %d %d " % (key, ft), 1).replace(" 100 101 ", " 100 %d " % e, 1)
+            crash_only.append(["agg new %d %d" % (A, I), mk(first_has, 101), mk(second_has, 102), "agg dump", mk(True, 103), "agg dump",
+                               "agg adv %d" % (A + 1), "agg scan - 1", "agg dump"])
     res = run_simple(ctx, cases, "C05", chk_filter=lambda op: True, stateful_chk=True,
                      chk_variant=lambda op: "agga" + op[3:],
                      signature=lambda c, oi, v, agrees: "C05:%s" % " ".join(v.split(" ")[:3]))
+    # the crash-only sessions: implementation alone (the model has no such record), every answer must be an answer
+    from check import run_ops
+    for ops in crash_only:
+        io, _ = run_ops(ctx.harness, ops, timeout=60)
+        io = io + ["missing"] * (len(ops) - len(io))
+        for oi, x in enumerate(io):
+            if x in ("panic", "hang", "missing"):
+                res["predicate_failures"].append({"signature": "C05:no-tcpstate:fails crash", "ops": ops[:oi + 1], "impl": x, "model": "-",
+                                                  "predicate": {"name": "no-crash rule (the implementation must answer every operation)", "value": "fails crash"}})
+                break
+    res["distribution"]["crash-only:no-tcpstate"] = len(crash_only)
     res["evaluations"] = sum(AG.n_records(o) for c in cases for o in c.ops)
     nmsg = sum(1 for c in cases for o in c.ops if o.startswith("agg msg"))
     nmix = sum(1 for c in cases for o in c.ops if o.startswith("agg msg") and len({g.split()[0] for g in o[8:].split(" + ")}) > 1)
